@@ -262,6 +262,7 @@ func runC12Swap(c *sim.Ctx, t *testing.T) {
 	nmsg := 1 + c.Intn(4, "nmsgs")
 	nswaps := 1 + c.Intn(6, "nswaps")
 	ctl := &core.Control{Limit: 10}
+	recompile := c.Chance(1, 3, "recompile")
 	us := core.NewUpdatableSpec(va)
 	type call struct{ got, wantA, wantB string }
 	calls := make([][]call, nw)
@@ -294,6 +295,16 @@ func runC12Swap(c *sim.Ctx, t *testing.T) {
 			s.Go("deriver2", func(tk *sim.Task) {
 				sim.Yield("h#derive2")
 				c12Derive(va, vb, fmt.Sprintf("prepared by the second thread, run %d", c.Seed%100003))
+			})
+		}
+		if recompile {
+			// ... or just copies the live version and compiles the copy from source again, as a
+			// host does before it edits anything (never swapped in)
+			s.Go("recompiler", func(tk *sim.Task) {
+				sim.Yield("h#recompile")
+				d := va.Copy("A2")
+				sim.Yield("h#recompile-compile")
+				d.Compile(context.Background(), interpreters, true)
 			})
 		}
 		s.Go("swapper", func(tk *sim.Task) {
